@@ -36,7 +36,7 @@ class C03:
         return PS.peer_strategy()
 
     def examples(self, tier):
-        return 2500 if tier == "quick" else 40000
+        return 2500 if tier == "quick" else 400000
 
     def enumerate(self, tier):
         out = []
